@@ -538,6 +538,8 @@ class CEval:
                 self.ev(inc)
             return
         # symbolic bound: i = 0 ; i < B ; i++
+        if not getattr(self, "allow_symbolic_loops", True):
+            raise AnalysisError("%s: loop with a symbolic bound" % self.fname)
         if not (isinstance(c, tuple) and c[0] == "cmp" and c[1] == "<"):
             raise AnalysisError("%s: loop condition `%s` not of the form var < bound" % (self.fname, self.tu.text_of(cond)))
         start = self.env.get(var_id)
@@ -554,3 +556,101 @@ class CEval:
         finally:
             self.loop_stack.pop()
         self.env[var_id] = Opaque("loop variable after loop")
+
+
+class FieldEval(CEval):
+    """Tolerant evaluation: which scalar values a function leaves in the struct it fills (and in its locals),
+    skipping what cannot be modelled.  A branch on a symbolic condition is run both ways and the values that differ
+    become opaque; loops with symbolic bounds are not executed and everything assigned inside them becomes opaque;
+    a statement that cannot be evaluated only invalidates what it assigns."""
+
+    allow_symbolic_loops = False
+
+    def _all_structs(self):
+        out = {id(s_): s_ for s_ in self.structs.values()}
+        for v in self.env.values():
+            if isinstance(v, Struct):
+                out[id(v)] = v
+        return list(out.values())
+
+    def _snap(self):
+        return dict(self.env), [(s_, dict(s_.fields), {k: dict(v) for k, v in s_.arrays.items()}) for s_ in self._all_structs()]
+
+    def _restore(self, snap):
+        self.env = dict(snap[0])
+        for s_, f, a in snap[1]:
+            s_.fields = dict(f)
+            s_.arrays = {k: dict(v) for k, v in a.items()}
+
+    def _invalidate(self, n):
+        for x in cfacts.walk(n):
+            k = x.get("kind")
+            tgt = None
+            if k == "BinaryOperator" and x.get("opcode") == "=" or k == "CompoundAssignOperator":
+                tgt = cfacts.strip(cfacts.kids(x)[0])
+            elif k == "UnaryOperator" and x.get("opcode") in ("++", "--"):
+                tgt = cfacts.strip(cfacts.kids(x)[0])
+            elif k == "VarDecl":
+                self.env[x["id"]] = Opaque("declared in skipped code")
+            if tgt is None:
+                continue
+            if tgt.get("kind") == "DeclRefExpr":
+                self.env[(tgt.get("referencedDecl") or {}).get("id")] = Opaque("assigned in skipped code")
+            elif tgt.get("kind") == "MemberExpr":
+                try:
+                    base = self.ev(cfacts.kids(tgt)[0])
+                except AnalysisError:
+                    base = None
+                if isinstance(base, Struct):
+                    base.fields[tgt.get("name")] = Opaque("assigned in skipped code")
+
+    def stmt(self, n):
+        k = n.get("kind")
+        if k == "CompoundStmt":
+            for c in cfacts.kids(n):
+                self.stmt(c)
+            return
+        if k == "IfStmt":
+            ks = cfacts.kids(n)
+            try:
+                c = self.ev(ks[0])
+            except AnalysisError:
+                c = None
+            if isinstance(c, Poly) and c.is_const():
+                if c.const_value():
+                    self.stmt(ks[1])
+                elif len(ks) > 2:
+                    self.stmt(ks[2])
+                return
+            snap = self._snap()
+            self.stmt(ks[1])
+            s1 = self._snap()
+            self._restore(snap)
+            if len(ks) > 2:
+                self.stmt(ks[2])
+            # merge: keep what both branches agree on
+            env1 = s1[0]
+            for key in set(env1) | set(self.env):
+                a, b = env1.get(key), self.env.get(key)
+                if not (isinstance(a, Poly) and isinstance(b, Poly) and a == b) and a is not b:
+                    self.env[key] = Opaque("differs between branches")
+            for s_, f1, _ in s1[1]:
+                for name in set(f1) | set(s_.fields):
+                    a, b = f1.get(name), s_.fields.get(name)
+                    if not (isinstance(a, Poly) and isinstance(b, Poly) and a == b) and a is not b:
+                        s_.fields[name] = Opaque("differs between branches")
+            return
+        if k in ("ForStmt", "WhileStmt", "DoStmt", "SwitchStmt"):
+            snap = self._snap()
+            try:
+                if k != "ForStmt":
+                    raise AnalysisError("loop")
+                self.for_stmt(n)
+            except AnalysisError:
+                self._restore(snap)
+                self._invalidate(n)
+            return
+        try:
+            CEval.stmt(self, n)
+        except AnalysisError:
+            self._invalidate(n)
